@@ -120,7 +120,15 @@ EXTRA2 = {
  "C16": " The direct operator history starts from a parsed tree when the spec's constraints admit one.",
  "C17": " Existential constraints that fail for several candidates.",
 }
+EXTRA3 = {
+ "C03": " Layouts in which the length field is the last child of an earlier sibling subtree; constraints over symbols absent from the satisfying tree; a constructed word that is not parsed or a constraint that rejects the constructed tree is a violation.",
+ "C15": " Specs sliced to one party (convert --party) are printed, re-read and compared with a witness word.",
+ "C19": " Messages between two external parties (cut out when the spec is loaded) are generated inside sequences; the reference projects them away.",
+ "C20": " Directed shapes start with a valid, pipelined remote message.",
+}
 for k, v in EXTRA.items():
+    CHECKS[k]["text"] += v
+for k, v in EXTRA3.items():
     CHECKS[k]["text"] += v
 for k, v in EXTRA2.items():
     CHECKS[k]["text"] += v
